@@ -30,5 +30,16 @@ for d in sorted(glob.glob(os.path.join(out, "C*", "m*"))):
                "with VERIF_REPO=<copy>; copy removed afterwards"}
     meta["checks_at_collection_time"] = {k: {"exit": v["exit"], "violation_lines": v["violations"], "first_oracle": (v["first"] or [""])[0][:300],
                                               "wall_s": v["wall_s"]} for k, v in e.get("checks", {}).items()}
+    ab = os.path.join(d, "eval_asbuilt.json")
+    if os.path.exists(ab):
+        try:
+            a = json.load(open(ab))
+            meta["checks_before_strengthening"] = {k: {"exit": v["exit"], "violation_lines": v["violations"]} for k, v in a.get("checks", {}).items()}
+        except Exception:
+            pass
+    for extra in ("patch_original.diff",):
+        if os.path.exists(os.path.join(d, extra)):
+            shutil.copy(os.path.join(d, extra), dst)
+            meta["note"] = "patch.diff is the sub-agent's change rebased onto a later fix: commit in /repo; " + extra + " is the file as delivered"
     json.dump(meta, open(os.path.join(dst, "meta.json"), "w"), indent=1)
     print("collected", name, {k: v["exit"] for k, v in e.get("checks", {}).items()})
